@@ -3,7 +3,7 @@
                             an id operand is a literal or @k = result of op k of the current history.
                             Prints per op:  M <result> | <state dump>   and   S <result> <ok|nodomain>
    atom_model ht <file>   : handle-table monitor.  Lines: N | O k obj argsok ans | I k parent pk sub argsok ans
-                            | U k id ans | L k id ans     (ans = F or an integer).  Prints  V ok | V bad <code>
+                            | U k id ans | L k id ans | P k1 id1 k2 id2 argsok ans     (ans = F or an integer).  Prints  V ok | V bad <code>
    atom_model fm <file>   : file machine.  Lines: N | o path acc | c fid | s fid w | e aid | q fid   (@k as above)
                             Prints  F fail | F ok v  [quiescent]                                                   *)
 open Atom_model
@@ -76,6 +76,7 @@ let run_ht ic =
         | ["I"; kk; par; pk; sub; ok; a] -> Some (CIssue (k kk, z par, k pk, z sub, ok = "1"), ans a)
         | ["U"; kk; id; a] -> Some (CUse (k kk, z id), ans a)
         | ["L"; kk; id; a] -> Some (CRelease (k kk, z id), ans a)
+        | ["P"; k1; id1; k2; id2; ok; a] -> Some (CPair (k k1, z id1, k k2, z id2, ok = "1"), ans a)
         | [] -> None
         | _ -> print_string "V badline\n"; None in
       match call with
